@@ -75,6 +75,8 @@ func checkC20(p *Prog, r *Report) {
 	r.rule("C20.names: Check returns an error for a tagged field whose json tag is empty, is \"id\" or repeats; getField/setField's lookups by json tag therefore find the declared fields")
 	r.rule("C20.type-list: the Go types Check accepts for attributes are exactly the 28 types of the kind table (as reflect.Type.String() prints them), and GetAttrType classifies each of them")
 	r.rule("C20.sibling-agreement (labelled path comparison, two loop iterations): for the same answers about each struct field (is attribute, is relationship, has inverse, is []string), BuildType and Wrap store the same Attr and Rel values under the same keys")
+	r.rule("C20.field-loops: every loop bounded by NumField() in Check, Wrap, BuildType and the Wrapper's methods runs its index from 0 in steps of 1")
+	r.rule("C20.id-extraction: IDAndType hands out a struct's ID and type name under Kind() == reflect.String on the field named ID (the test Check applies) and reads it with String(); C20.check-pure: Check and its callees read no package-level variable")
 	r.rule("C20.refusal: BuildType returns Check's error and Wrap panics on it, before any tag-dependent work; the Wrapper's explicit panics are only reachable with keys that are not declared fields or values of another type (API misuse outside the property's domain)")
 	r.assume("A2: distinct supported Go field types have distinct reflect.Type.String(); struct fields are exported and settable for values passed by pointer (Wrap copies non-pointer values field by field)")
 	r.notCovered("reflect semantics on exotic struct shapes (embedded structs, unexported fields); that marshaling a wrapped struct yields the right JSON (C01/C04)")
@@ -91,6 +93,8 @@ func checkC20(p *Prog, r *Report) {
 		r.fail("anchor Check not found")
 		return
 	}
+	checkFieldLoopsFull(p, r, "C20")
+	checkC20IDAndPurity(p, r)
 
 	// ---- split-arity: discharge/flag the relTag[k] sites that R3 cannot prove
 	// (re-decide them here with the precondition rule; R3's generic verdict for
@@ -717,5 +721,114 @@ func checkRefusal(p *Prog, r *Report, chk *ssa.Function) {
 		})
 		r.decide(okOrder, "C20.refusal", funcName(f)+":Check-first", p.pos(call.Pos()), "Check runs before any tag-derived attribute or relationship is recorded",
 			funcName(f)+" derives attributes or relationships from the tags before Check has validated the struct")
+	}
+}
+
+// checkFieldLoopsFull: every loop over the fields of a struct (bound
+// <x>.NumField()) in the functions that inspect user structs runs its index
+// from 0 in steps of 1, so no field is passed over (shared by C17 and C20).
+func checkFieldLoopsFull(p *Prog, r *Report, prefix string) {
+	n := 0
+	for _, f := range p.Funcs {
+		name := funcName(f)
+		if !(name == "Check" || name == "Wrap" || name == "BuildType" || strings.HasPrefix(name, "(*Wrapper).")) {
+			continue
+		}
+		for _, b := range f.Blocks {
+			loop := naturalLoop(b)
+			if loop == nil {
+				continue
+			}
+			ifi, ok := b.Instrs[len(b.Instrs)-1].(*ssa.If)
+			if !ok {
+				continue
+			}
+			bo, ok := ifi.Cond.(*ssa.BinOp)
+			if !ok || bo.Op != token.LSS {
+				continue
+			}
+			c, _ := callOf(bo.Y)
+			if c == nil {
+				continue
+			}
+			sc := c.Common().StaticCallee()
+			if sc == nil || !strings.HasSuffix(fullName(sc), ".NumField") {
+				continue
+			}
+			n++
+			start, step := inductionOf(bo.X, loop)
+			r.decide(start == 0 && step == 1, prefix+".field-loops", name+":"+p.describe(ifi), p.pos(loopPos(&loopDesc{blocks: loop, header: b})), "visits fields 0 … NumField()-1",
+				fmt.Sprintf("a loop over the struct's fields in %s does not visit every field (index starts at %d, step %d): a declared attribute or relationship is missing from what the wrapper reports", name, start, step))
+		}
+	}
+	r.floor("loops over struct fields", n, 8)
+}
+
+// checkC20IDAndPurity: IDAndType extracts the ID under the very test Check
+// applies to the ID field (string kind, so defined string types too), and
+// Check's verdict depends on its argument alone (no package-level state).
+func checkC20IDAndPurity(p *Prog, r *Report) {
+	idt := p.Fn("IDAndType")
+	if idt == nil {
+		r.fail("anchor IDAndType not found")
+	} else {
+		r.fn(funcName(idt))
+		// the return that hands out the api tag: guarded by Kind() == reflect.String on the field named ID
+		n := 0
+		for _, b := range idt.Blocks {
+			ret, ok := b.Instrs[len(b.Instrs)-1].(*ssa.Return)
+			if !ok || len(ret.Results) != 2 {
+				continue
+			}
+			c, _ := callOf(ret.Results[1])
+			if c == nil || c.Common().StaticCallee() == nil || !strings.HasSuffix(fullName(c.Common().StaticCallee()), "StructTag).Get") {
+				continue
+			}
+			n++
+			kindTest := false
+			for _, ef := range expandFacts(factsAt(b)) {
+				bo, ok := ef.Cond.(*ssa.BinOp)
+				if !ok || bo.Op != token.EQL || !ef.Truth {
+					continue
+				}
+				if k, ok := constInt(bo.Y); ok && k == 24 { // reflect.String
+					if kc, _ := callOf(bo.X); kc != nil && kc.Common().StaticCallee() != nil && strings.HasSuffix(fullName(kc.Common().StaticCallee()), "Value).Kind") {
+						kindTest = true
+					}
+				}
+			}
+			good := kindTest
+			why := "the ID is recognised by something other than Kind() == reflect.String"
+			if good {
+				sc, _ := callOf(ret.Results[0])
+				if sc == nil || sc.Common().StaticCallee() == nil || !strings.HasSuffix(fullName(sc.Common().StaticCallee()), "Value).String") {
+					good, why = false, "the ID is not read with reflect.Value.String()"
+				}
+			}
+			r.decide(good, "C20.id-extraction", "IDAndType:struct-id", p.pos(ret.Pos()), "ID read with String() under Kind() == reflect.String, the test Check applies", "IDAndType does not recognise every ID field Check accepts ("+why+"): for such a struct BuildType and Wrap get an empty type name and ID")
+		}
+		r.floor("tag-returning returns of IDAndType", n, 1)
+	}
+	// no package-level state in Check and what it calls inside the package
+	chk := p.Fn("Check")
+	if chk == nil {
+		return
+	}
+	nG := 0
+	for _, g := range p.cg.Reachable(chk) {
+		eachInstr(g, func(ins ssa.Instruction) {
+			for _, op := range ins.Operands(nil) {
+				if *op == nil {
+					continue
+				}
+				if gl, ok := (*op).(*ssa.Global); ok && gl.Pkg != nil && gl.Pkg.Pkg.Path() == targetPkgPath {
+					nG++
+					r.bad("C20.check-pure", funcName(g)+":global:"+gl.Name(), p.pos(ins.Pos()), "Check consults the package-level variable "+gl.Name()+": its verdict for a struct type can depend on which other types were checked before")
+				}
+			}
+		})
+	}
+	if nG == 0 {
+		r.ok("C20.check-pure", "Check:no-package-state", p.pos(chk.Pos()), "Check and its callees in the package read no package-level variable")
 	}
 }
